@@ -68,6 +68,10 @@ def special_cases():
     one('.ascii "abc" <n> "d"\n.asciz /x/ <n>\n.rad50 /abcd/ <n>\n.even\nw: .word w\nn = 5\n')
     one('.include "i.mac"\nafter: .word after\n', {"i.mac": ".blkb m\n.even\nil: .word il\nm = 3\n"})
     one('insert_file "b.bin"\n.even\nafter: .word after\n', {"b.bin": bytes(range(7))})
+    # a skip target written as a negative / wrapped value: the addresses after it are still base + bytes before
+    one(".link 1000\nnop\n. = -176730\nl: .word l, .\nm: .word m\n")
+    one("nop\n. = -176730\nl: .word l, .\n.byte 1\n.even\nm: .word m\n")
+    one(".link 1000\n.blkb n\n. = -176700\nl: .word l, .\nn = 3\n")
     # a path that is only known after a later definition: the statement stays deferred, its size must still count
     one('.include "i" <n> ".mac"\nafter: .word after, .\nn = 67\n', {"i7.mac": ".byte 1,2,3,4\n"})
     one('.byte 1\n.even\n.include "i" <n> ".mac"\n.even\nafter: .word after, .\nn = 60 + k\nk = 7\n', {"i7.mac": ".ascii /abcde/\n.even\n.word .\n"})
